@@ -23,7 +23,7 @@ TEXT = {
         note=BASE_NOTE + " The translation of the eight constructors, Type() and ToBytes() is by gengo's recognised statement forms; an unrecognised form makes CtrlTie.v fail.",
         technique="Coq proof over translator-generated definitions (reflexivity, finite sweep lifted by forallb_forall) + exhaustive correspondence"),
     "C04": dict(
-        level="Proof (sub-grammar complete, rest partial): C04_print_parse — sml.Parse of the printed form of any sequence of messages (any stream/function code, wait bit, direction, a name the header lexer reads as one name; item trees of lists, plain list variables and integer / unsigned / binary / boolean value items of any size, nesting and value; or no item) returns exactly those messages with no error and no warning: the printer model, the lexer model and the parser model composed, by induction over trees, elements and fuel. Its layers: C04_print_lex_parse (characters -> tokens -> tree), C04_item_tokens, C04_leaf_item, C04_leaf_tokens, and the literal lemmas C04_partial_*. Not proved: float items (their text is a strconv oracle), ASCII items, ellipses, and the converse direction (printed form is a fixed point of every accepted text); those are decided by the Go-side monitors of suite C04 (API-built messages printed and re-parsed: exactly one message, no diagnostics, same header, variables, printed form and bytes; every accepted text re-printed and re-parsed) and by the correspondence of printer, lexer and parser with the model.",
+        level="Proof (sub-grammar complete, rest partial): C04_print_parse — sml.Parse of the printed form of any sequence of messages (any stream/function code, wait bit, direction, a name the header lexer reads as one name; item trees of lists, plain list variables, integer / unsigned / binary / boolean value items, ASCII items over all 128 characters and ASCII variables with length constraints, of any size, nesting and value; or no item) returns exactly those messages with no error and no warning: the printer model, the lexer model and the parser model composed, by induction over trees, elements and fuel. Its layers: C04_print_lex_parse (characters -> tokens -> tree), C04_item_tokens, C04_leaf_item, C04_leaf_tokens, and the literal lemmas C04_partial_*. Not proved: float items (their text is a strconv oracle), ellipses, and the converse direction (printed form is a fixed point of every accepted text); those are decided by the Go-side monitors of suite C04 (API-built messages printed and re-parsed: exactly one message, no diagnostics, same header, variables, printed form and bytes; every accepted text re-printed and re-parsed) and by the correspondence of printer, lexer and parser with the model.",
         note=BASE_NOTE + " Float text is an oracle (strconv).",
         technique="Coq proof (printer, lexer and parser models composed; offset parametricity of the parser) + print/parse monitors + differential correspondence"),
     "C05": dict(
